@@ -292,8 +292,9 @@ example : ∃ evs, walk (exCtx 24) (.msg exMsg) [.data 0, .dPush] = some evs ∧
 /-! ### cursor-based accessors -/
 
 /-- a traversal with cursors (every member before the target through the plain cursor, entries
-    through `cursor_range`, the target through any of the five wrappers): same statement, wherever
-    the views and the cursor are -/
+    through `cursor_range`, the target through any of the five wrappers — READ through the getter
+    or, `tg.set`, WRITTEN through the wrapper's setter): same statement, wherever the views and the
+    cursor are -/
 theorem guard_sound_cursor_partial (c : Ctx) (m : CMsg) (tg : Target) (hwf : c.WF) (hb : IsBytes c.buf)
     (hv : PtrsRepresentable c (travMsg c m tg).evs) (hnw : NoWrap (travMsg c m tg).evs)
     (hg : guard (travMsg c m tg).evs = true) : allInside c.n (touches (travMsg c m tg).evs) = true := by
@@ -319,16 +320,24 @@ def exCCtx (n : Nat) : Ctx :=
   { base := 4096, n := n, bo := .little, buf := [6,0,1,0,1,0,0,0, 9,9,9,9, 0,0, 2,0,1,0, 7,7] }
 
 /-- the hypotheses are satisfiable: complete image, all three members, the last one through `skip` -/
-example : PtrsRepresentable (exCCtx 20) (travMsg (exCCtx 20) exCMsg ⟨2, .skip⟩).evs ∧
-    NoWrap (travMsg (exCCtx 20) exCMsg ⟨2, .skip⟩).evs ∧ guard (travMsg (exCCtx 20) exCMsg ⟨2, .skip⟩).evs = true ∧
-    (travMsg (exCCtx 20) exCMsg ⟨2, .skip⟩).ptr = 20 := by decide
+example : PtrsRepresentable (exCCtx 20) (travMsg (exCCtx 20) exCMsg { k := 2, var := .skip }).evs ∧
+    NoWrap (travMsg (exCCtx 20) exCMsg { k := 2, var := .skip }).evs ∧
+    guard (travMsg (exCCtx 20) exCMsg { k := 2, var := .skip }).evs = true ∧
+    (travMsg (exCCtx 20) exCMsg { k := 2, var := .skip }).ptr = 20 := by decide
+
+/-- … and with a setter run: the entry's field written through `dont_move` -/
+example : PtrsRepresentable (exCCtx 20) (travMsg (exCCtx 20) exCMsg { k := 2, var := .dontMove, set := true }).evs ∧
+    NoWrap (travMsg (exCCtx 20) exCMsg { k := 2, var := .dontMove, set := true }).evs ∧
+    guard (travMsg (exCCtx 20) exCMsg { k := 2, var := .dontMove, set := true }).evs = true ∧
+    touches (travMsg (exCCtx 20) exCMsg { k := 2, var := .dontMove, set := true }).evs =
+      [(8, 4), (0, 2), (0, 2), (14, 2), (16, 2), (18, 2)] := by decide
 
 def guard_sound_cursor_full : Prop :=
   ∀ (c : Ctx) (m : CMsg) (tg : Target), c.WF → IsBytes c.buf →
     ∀ k, run c.n (travMsg c m tg).evs 0 ≠ .fault k
 
 /-- the former witness (cursor moved past the end by `blockLength`) now asserts -/
-example : run 12 (travMsg (exCCtx 12) exCMsg ⟨2, .plain⟩).evs 0 = .assertFailed 12 := by decide
+example : run 12 (travMsg (exCCtx 12) exCMsg { k := 2, var := .plain }).evs 0 = .assertFailed 12 := by decide
 
 /-- header of 10 bytes whose 8-byte blockLength holds 2^64 - 10, one data member (2-byte length) -/
 def exCMsg64 : CMsg := { hdrSize := 10, blOff := 0, blSize := 8, level := .mk [] [] [⟨2⟩] }
@@ -341,7 +350,56 @@ def exCCtx64 (n : Nat) : Ctx :=
     pointer passes and the length prefix is read through it -/
 theorem guard_sound_cursor_full_false : ¬ guard_sound_cursor_full := by
   intro h
-  exact h (exCCtx64 13) exCMsg64 ⟨0, .plain⟩ (by decide) (by decide) 6 (by decide)
+  exact h (exCCtx64 13) exCMsg64 { k := 0, var := .plain } (by decide) (by decide) 6 (by decide)
+
+/-! ### cursor setters (`v.NAME(value, c)`, `cursor::set_value` / `set_last_value` and the wrappers) -/
+
+/-- a cursor setter performs the assertion and the size check of the getter of the same wrapper (with
+    the same value), writes exactly the bytes that getter reads and leaves the cursor where the
+    getter leaves it — the specification of a setter run therefore is that of the getter run -/
+theorem cursor_setter_as_getter (c : Ctx) (v : CView) (f : CField) (ptr : Nat) (var : CVar) :
+    (curScalar c v f ptr true var).1.map Ev.asRead = (curScalar c v f ptr false var).1.map Ev.asRead ∧
+    (curScalar c v f ptr true var).2 = (curScalar c v f ptr false var).2 :=
+  curScalar_set_eq c v f ptr var
+
+/-- the form the canary buffers observe: a traversal that returns normally — the target written
+    through a setter or read — has not written behind the view -/
+theorem no_silent_write_cursor (c : Ctx) (m : CMsg) (tg : Target) (slack : Nat) (dirty : Bool)
+    (hwf : c.WF) (hb : IsBytes c.buf)
+    (hv : PtrsRepresentable c (travMsg c m tg).evs) (hnw : NoWrap (travMsg c m tg).evs)
+    (hr : runCanary c.n slack (travMsg c m tg).evs 0 false = (.ok, dirty)) : dirty = false := by
+  have h := runCanary_ok c.n slack _ 0 false dirty hr
+  exact h.2 (guard_sound_cursor_partial c m tg hwf hb hv hnw h.1)
+
+/-- header 8 bytes (blockLength u16 at 0), block of 20 bytes: `a` u32 at 0, an 8-byte gap, `b` u32 at
+    12 (cursor-relative offset 8), `c` u32 at 16 -/
+def exGapMsg : CMsg :=
+  { hdrSize := 8, blOff := 0, blSize := 2,
+    level := .mk [{ rel := 0, abs := 8, size := 4, isView := false, last := false },
+                  { rel := 8, abs := 20, size := 4, isView := false, last := false },
+                  { rel := 0, abs := 24, size := 4, isView := false, last := true }] [] [] }
+
+def exGapCtx (n : Nat) : Ctx :=
+  { base := 4096, n := n, bo := .little, buf := [20,0,1,0,1,0,0,0, 1,1,1,1, 0,0,0,0,0,0,0,0, 2,2,2,2, 3,3,3,3] }
+
+/-- `m.a(c); m.b(value, c)` on a view that ends inside the gap (n = 16) and everywhere up to the last
+    byte of `b` (n = 23): the size check of `set_value` (event 4: header check, assertion and check
+    and read of `a`, assertion of `b`) fails, nothing is written; from n = 24 on the write is inside -/
+example : (List.range 29).map (fun n => run n (travMsg (exGapCtx n) exGapMsg { k := 1, var := .plain, set := true }).evs 0) =
+    List.replicate 8 (.assertFailed 0) ++ List.replicate 4 (.assertFailed 2) ++ List.replicate 12 (.assertFailed 5)
+      ++ List.replicate 5 .ok := by decide
+
+example : touches (travMsg (exGapCtx 24) exGapMsg { k := 1, var := .plain, set := true }).evs = [(8, 4), (20, 4)] ∧
+    runCanary 24 64 (travMsg (exGapCtx 24) exGapMsg { k := 1, var := .plain, set := true }).evs 0 false = (.ok, false) ∧
+    runCanary 16 64 (travMsg (exGapCtx 16) exGapMsg { k := 1, var := .plain, set := true }).evs 0 false
+      = (.assertFailed 5, false) := by decide
+
+/-- why the ORDER matters: the same setter with its check evaluated at the cursor BEFORE the cursor is
+    advanced over the gap (`SBEPP_SIZE_CHECK(ptr, end, 0, sizeof(T)); ptr += offset; write`) passes on
+    n = 16 and writes `[20, 24)` behind the view: events that are not `Covered` -/
+example : run 16 [.check 12 0 4 (sizeCheck (4096 + 12) (4096 + 16) 0 4), .touch 20 4 true] 0 = .fault 1 ∧
+    runCanary 16 64 [.check 12 0 4 (sizeCheck (4096 + 12) (4096 + 16) 0 4), .touch 20 4 true] 0 false = (.ok, true) := by
+  decide
 
 /-! ### completeness: no spurious assertion -/
 
